@@ -290,14 +290,14 @@ def n5_single_producer(ck):
             if n.endswith(("FnMut::call_mut", "Fn::call", "FnOnce::call_once")) and "F" in t.get("generics", [""])[0:1]:
                 ck.fail("N5.worker_callback", cn, c.where(t["line"]), "the status callback is invoked from inside a worker closure: event order depends on scheduling")
         for bb, t in live_calls(c):
-            if "mpsc::Sender" in callee_name(t):
+            if "mpsc::Sender" in callee_name(t) or "mpsc::SyncSender" in callee_name(t):
                 ck.fail("N5.worker_send", cn, c.where(t["line"]), "a worker closure sends on a channel")
     ck.ok("N5.worker_callback", "workers do not report", it.where(), "%d closures of analyze_iterative scanned" % len(prog.closures_of(ITER)))
     # status events are sent only by the callback closure created in analyze
     senders = []
     for b in ws_bodies(prog, ("weechess_engine",)):
         for bb, t in live_calls(b):
-            if callee_name(t).endswith("mpsc::Sender::<T>::send") and "StatusEvent" in " ".join(t.get("generics", [])):
+            if (callee_name(t).endswith("mpsc::Sender::<T>::send") or callee_name(t).endswith("mpsc::SyncSender::<T>::send")) and "StatusEvent" in " ".join(t.get("generics", [])):
                 senders.append(b.name)
     ck.req(len(senders) == 1 and senders[0].startswith(ANALYZE + "::"), "N5.single_sender", "StatusEvent sender", "",
            "StatusEvent is sent from %s (expected only the callback closure inside Searcher::analyze)" % senders, senders[0] if senders else "")
